@@ -18,6 +18,8 @@ type Mem struct {
 	// BeforeWrite, when set, is called (outside the lock) before every Set/Delete/Clear with the
 	// operation name and key; a non-nil error is returned to the caller and the write is skipped.
 	BeforeWrite func(op string, key []byte) error
+	// BeforeRead, when set, is called before every Get; a non-nil error is returned to the caller.
+	BeforeRead func(key []byte) error
 	// Gets counts Get+Exist calls (deterministic cost measure).
 	Gets int64
 	// Sets counts successful Set calls.
@@ -27,6 +29,11 @@ type Mem struct {
 func NewMem() *Mem { return &Mem{m: map[string][]byte{}} }
 
 func (s *Mem) Get(key []byte) ([]byte, error) {
+	if s.BeforeRead != nil {
+		if err := s.BeforeRead(key); err != nil {
+			return nil, err
+		}
+	}
 	s.mu.Lock()
 	s.Gets++
 	v, ok := s.m[string(key)]
